@@ -236,7 +236,7 @@ Proof.
   destruct s1 as [[p dc1 wc1] w r q], s2 as [[p2 dc2 wc2] w2 r2 q2].
   intros (Hp & Hw & Hr & Hq). simpl in *. subst p2 w2 r2 q2.
   unfold group_step. simpl.
-  destruct (fst f =? 1); [simpl; exact I|].
+  destruct (fst f =? 1); [simpl; reflexivity|].
   destruct ((fst f =? 2) && negb (skip_nodes c)).
   { destruct (as_msg (snd f)) as [m| |]; simpl; auto.
     rewrite (scan_dense_indep c p dc1 dc2 m q).
